@@ -39,6 +39,16 @@ PROPS = {
                         "the non-atomic flag-byte |= is modelled as one step (no concurrent writer of that byte exists outside ABA)"],
     },
 }
+PROPS["C05"] = {
+    "claim": "Inductive invariant of the wake-up protocol proved in Lean for any number of producers, any queue capacity and EVERY interleaving of put / CAS workingFlag / event write with the consumer's take / pop / store 0 / re-check / store 1: c05_no_stranded (a non-empty queue with an idle consumer always has a notification in flight or a producer between its put and its wake-up) and c05_quiescent_empty. Includes the slow path where the event is handed to the send loop. Tied to the code by skeletons of wakeUpPeer, markWorking, markNotWorking, handlePolling, Flush/close call sites (tie 1) and lock-step correspondence under the controlled scheduler on two real in-package sessions sharing a queue (tie 2).",
+    "note": "Trusted: Lean kernel; extractor; instrumenter+scheduler; put/pop atomic at this granularity (justified by C04); the control connection delivers every written event (C18); error exit of handlePolling (broken shared memory) outside the model.",
+    "technique": "Lean 4 proof (inductive invariant over the step relation, unbounded producers) + skeleton tie + scheduler lock-step correspondence on real sessions",
+    "design_ref": "DESIGN.md §5 C05",
+    "lean_modules": ["ShmVerif.Tie.C05", "ShmVerif.Props.C05"],
+    "harness": True, "level": "proof", "trusted_base": COMMON_TB,
+    "rule": "cases = (queue capacity 1/2/3/8, 1-3 producers with 1-4 put+wake operations each, random PCT-flavoured schedule over the scheduling points put / CAS flag / write event / take / pop / store0 / check / store1, deterministic completion); non-trivial = queue full, slow path (event handed to the send loop), consumer stepped while active, re-check found work; distinct by hash of op lines",
+    "assumptions": ["put and pop are atomic at this granularity (C04)", "every polling event written to the connection or handed to the send loop is eventually delivered"],
+}
 PROPS["C02"] = dict(PROPS["C01"], lean_modules=["ShmVerif.Tie.C01", "ShmVerif.Props.C02"],
     claim="PARTIAL proof. Proved in Lean: c02_conservation_seq and c02_quiescent_full_seq (every sequential-atomic history: free count = chain length, free count + owned = capacity; when nothing is owned size = cap and the walk from head visits every slot exactly once and ends at tail), c02_failed_alloc_consumes_nothing (a failing pop restores every shared word), c02_aba_witness (kernel-checked: after the ABA schedule and full recycling size = cap = 4 but the walk visits 2 slots - known finding F1, replayed on the real code every run). Conservation for ABA-free concurrent interleavings is not proved; covered by scheduler correspondence + quiescence monitors (size, chain walk, count never exceeds capacity).",
     design_ref="DESIGN.md §5 C02")
